@@ -1566,13 +1566,14 @@ class Affine:
         if len(self.shape) != 2:
             raise ValueError('The diag function can only be applied to 2D arrays.')
 
-        num = min(self.shape)
         if k >= 0:
-            idx_row = np.arange(num - k)
-            idx_col = np.arange(k, num)
+            num = max(min(self.shape[0], self.shape[1] - k), 0)
+            idx_row = np.arange(num)
+            idx_col = np.arange(k, k + num)
         else:
-            idx_row = np.arange(-k, num)
-            idx_col = np.arange(num + k)
+            num = max(min(self.shape[0] + k, self.shape[1]), 0)
+            idx_row = np.arange(-k, -k + num)
+            idx_col = np.arange(num)
 
         if fill:
             bool_mat = np.ones(self.shape, dtype=bool)
@@ -1583,7 +1584,9 @@ class Affine:
             affine.linear = lil_matrix(affine.linear)
             affine.linear[bool_idx] = 0.0
             affine.linear = csr_matrix(affine.linear)
-            affine.const = np.diag(np.diag(affine.const, k), k)
+            const = np.zeros(self.shape)
+            const[idx_row, idx_col] = affine.const[idx_row, idx_col]
+            affine.const = const
 
             return affine
         else:
